@@ -116,8 +116,6 @@ theorem decodeString_ustringOf (s : Bytes) (hs : Proofs.C04.Bytes s) : decodeStr
     rw [Proofs.C04.decodeMax_zero, this]
   · simp [decodeString]
 
-theorem encodeLength_le (s : Bytes) (h : Huffman.encodeLength s < s.length) : Huffman.encodeLength s < s.length := h
-
 theorem readString_appendHpackString (s rest : Bytes) (hlen : s.length < 2 ^ 62) :
     readString 0 (appendHpackString s ++ rest) = .ok (ustringOf s, rest) := by
   unfold appendHpackString ustringOf
@@ -156,5 +154,175 @@ theorem readString_appendHpackString (s rest : Bytes) (hlen : s.length < 2 ^ 62)
     refine ⟨⟨by simp; omega, ?_⟩, ?_⟩
     · rw [List.take_left']; rfl
     · rw [List.drop_left']; rfl
+
+/-! ### Representations -/
+
+/-- Decoder configuration the round trip assumes: no string limit, emit enabled. -/
+structure DecCfg (d : DecCore) : Prop where
+  str : d.maxStrLen = 0
+  emit : d.emitEnabled = true
+
+theorem parseRepr_indexed (d : DecCore) (hc : DecCfg d) (idx : Nat) (e : Entry) (rest : Bytes)
+    (hat : d.at idx = some e) (hidx : idx < 2 ^ 62) :
+    parseRepr d (appendIndexed idx ++ rest) = .ok d rest (some { name := e.1, value := e.2 }) := by
+  have hpa : parseAction d (appendIndexed idx ++ rest) = .ok (.indexed e, rest) := by
+    unfold appendIndexed
+    obtain ⟨hd, tl, hcons, hlo, _⟩ := appendVarInt_cons 7 128 idx
+    have hrv := readVarInt_appendVarInt 7 128 idx rest (Or.inr (Or.inr (Or.inr rfl))) (by decide) hidx
+    rw [hcons] at hrv ⊢
+    simp only [List.cons_append] at hrv ⊢
+    simp only [parseAction, show hd ≥ 128 from hlo, ↓reduceIte, Parser.bind, hrv, hat, Parser.pure]
+  unfold parseRepr
+  rw [hpa]
+  simp [applyAction, finishEmit, callEmit, hc.str, hc.emit]
+
+/-- The three literal forms. -/
+inductive LitKind where
+  | incr | without | never
+  deriving DecidableEq, Repr
+
+def LitKind.n : LitKind → Nat
+  | .incr => 6
+  | _ => 4
+
+def LitKind.flag : LitKind → Nat
+  | .incr => 64
+  | .without => 0
+  | .never => 16
+
+def LitKind.it : LitKind → IndexType
+  | .incr => .indexedTrue
+  | .without => .indexedFalse
+  | .never => .indexedNever
+
+theorem LitKind.prefixN (k : LitKind) : PrefixN k.n := by
+  cases k
+  · exact Or.inr (Or.inr (Or.inl rfl))
+  · exact Or.inl rfl
+  · exact Or.inl rfl
+
+theorem LitKind.flag_mod (k : LitKind) : k.flag % 2 ^ k.n = 0 := by cases k <;> decide
+
+theorem parseAction_literal (d : DecCore) (k : LitKind) (hd : Nat) (p : Bytes)
+    (hlo : k.flag ≤ hd) (hhi : hd ≤ k.flag + (2 ^ k.n - 1)) :
+    parseAction d (hd :: p) = parseLiteral d k.n k.it (hd :: p) := by
+  cases k
+  · simp only [LitKind.flag, LitKind.n, LitKind.it] at *
+    simp only [parseAction]
+    rw [if_neg (by omega), if_pos (by omega)]
+  · simp only [LitKind.flag, LitKind.n, LitKind.it] at *
+    simp only [parseAction]
+    rw [if_neg (by omega), if_neg (by omega), if_pos (by omega)]
+  · simp only [LitKind.flag, LitKind.n, LitKind.it] at *
+    simp only [parseAction]
+    rw [if_neg (by omega), if_neg (by omega), if_neg (by omega), if_pos (by omega)]
+
+theorem parseLiteral_idxName (d : DecCore) (hc : DecCfg d) (k : LitKind) (idx : Nat) (e : Entry)
+    (value rest : Bytes) (hpos : 0 < idx) (hidx : idx < 2 ^ 62) (hat : d.at idx = some e)
+    (hv : value.length < 2 ^ 62) :
+    parseLiteral d k.n k.it (appendVarInt k.n k.flag idx ++ (appendHpackString value ++ rest)) =
+      .ok (.literal k.it (some e.1) { isHuff := false, b := [] } (ustringOf value), rest) := by
+  unfold parseLiteral
+  simp only [Parser.bind, readVarInt_appendVarInt k.n k.flag idx _ k.prefixN k.flag_mod hidx, hpos, ↓reduceIte, hat,
+    hc.str, readString_appendHpackString value rest hv, Parser.pure]
+
+theorem parseLiteral_newName (d : DecCore) (hc : DecCfg d) (k : LitKind)
+    (name value rest : Bytes) (hn : name.length < 2 ^ 62) (hv : value.length < 2 ^ 62) :
+    parseLiteral d k.n k.it (k.flag :: (appendHpackString name ++ (appendHpackString value ++ rest))) =
+      .ok (.literal k.it none (ustringOf name) (ustringOf value), rest) := by
+  have h0 : k.flag :: (appendHpackString name ++ (appendHpackString value ++ rest)) =
+      appendVarInt k.n k.flag 0 ++ (appendHpackString name ++ (appendHpackString value ++ rest)) := by
+    unfold appendVarInt
+    cases k <;> simp [LitKind.n, LitKind.flag]
+  rw [h0]
+  unfold parseLiteral
+  simp only [Parser.bind, readVarInt_appendVarInt k.n k.flag 0 _ k.prefixN k.flag_mod (by omega), Nat.lt_irrefl,
+    ↓reduceIte, hc.str, readString_appendHpackString name _ hn, readString_appendHpackString value rest hv,
+    Parser.pure]
+
+/-- The decoder state after a literal of kind `k` carrying `(name, value)`. -/
+def afterLiteral (d : DecCore) (k : LitKind) (name value : Bytes) : DecCore :=
+  match k with
+  | .incr => { d with dyn := d.dyn.add (name, value) }
+  | _ => d
+
+theorem applyAction_literal (d : DecCore) (hc : DecCfg d) (k : LitKind) (tn : Option Bytes) (un uv : UString)
+    (name value : Bytes)
+    (hn : (∃ n, tn = some n ∧ n = name) ∨ (tn = none ∧ decodeString 0 un = .ok name))
+    (hv : decodeString 0 uv = .ok value) :
+    applyAction d (.literal k.it tn un uv) =
+      .ok (afterLiteral d k name value) (some { name := name, value := value, sensitive := k.it.sensitive }) := by
+  rcases hn with ⟨n, rfl, rfl⟩ | ⟨rfl, hn⟩ <;>
+  · cases k <;>
+      simp [applyAction, LitKind.it, afterLiteral, IndexType.indexed, IndexType.sensitive, hc.str, hc.emit, hv, hn,
+        finishEmit, callEmit]
+
+theorem parseRepr_literal_idx (d : DecCore) (hc : DecCfg d) (k : LitKind) (idx : Nat) (e : Entry)
+    (value rest : Bytes) (hpos : 0 < idx) (hidx : idx < 2 ^ 62) (hat : d.at idx = some e)
+    (hv : value.length < 2 ^ 62) (hvb : Proofs.C04.Bytes value) :
+    parseRepr d (appendVarInt k.n k.flag idx ++ (appendHpackString value ++ rest)) =
+      .ok (afterLiteral d k e.1 value) rest (some { name := e.1, value := value, sensitive := k.it.sensitive }) := by
+  have hpa : parseAction d (appendVarInt k.n k.flag idx ++ (appendHpackString value ++ rest)) =
+      .ok (.literal k.it (some e.1) { isHuff := false, b := [] } (ustringOf value), rest) := by
+    rw [← parseLiteral_idxName d hc k idx e value rest hpos hidx hat hv]
+    obtain ⟨hd, tl, hcons, hlo, hhi⟩ := appendVarInt_cons k.n k.flag idx
+    rw [hcons]
+    exact parseAction_literal d k hd _ hlo hhi
+  unfold parseRepr
+  rw [hpa]
+  simp only
+  rw [applyAction_literal d hc k (some e.1) _ _ e.1 value (Or.inl ⟨e.1, rfl, rfl⟩) (decodeString_ustringOf value hvb)]
+
+theorem parseRepr_literal_new (d : DecCore) (hc : DecCfg d) (k : LitKind)
+    (name value rest : Bytes) (hn : name.length < 2 ^ 62) (hv : value.length < 2 ^ 62)
+    (hnb : Proofs.C04.Bytes name) (hvb : Proofs.C04.Bytes value) :
+    parseRepr d (k.flag :: (appendHpackString name ++ (appendHpackString value ++ rest))) =
+      .ok (afterLiteral d k name value) rest (some { name := name, value := value, sensitive := k.it.sensitive }) := by
+  have hpa : parseAction d (k.flag :: (appendHpackString name ++ (appendHpackString value ++ rest))) =
+      .ok (.literal k.it none (ustringOf name) (ustringOf value), rest) := by
+    rw [← parseLiteral_newName d hc k name value rest hn hv]
+    exact parseAction_literal d k k.flag _ (Nat.le_refl _) (by omega)
+  unfold parseRepr
+  rw [hpa]
+  simp only
+  rw [applyAction_literal d hc k none _ _ name value (Or.inr ⟨rfl, decodeString_ustringOf name hnb⟩)
+    (decodeString_ustringOf value hvb)]
+
+theorem parseRepr_sizeUpdate (d : DecCore) (v : Nat) (rest : Bytes) (hv : v ≤ d.dyn.allowedMaxSize)
+    (hv62 : v < 2 ^ 62) (hok : d.firstField = true ∨ d.dyn.size = 0) :
+    parseRepr d (appendTableSize v ++ rest) = .ok { d with dyn := d.dyn.setMaxSize v } rest none := by
+  have hpa : parseAction d (appendTableSize v ++ rest) = .ok (.sizeUpdate v, rest) := by
+    unfold appendTableSize
+    obtain ⟨hd, tl, hcons, hlo, hhi⟩ := appendVarInt_cons 5 32 v
+    have hrv := readVarInt_appendVarInt 5 32 v rest (Or.inr (Or.inl rfl)) (by decide) hv62
+    rw [hcons] at hrv ⊢
+    simp only [List.cons_append] at hrv ⊢
+    simp only [Nat.reducePow, Nat.reduceSub, Nat.reduceAdd] at hhi
+    simp only [parseAction]
+    rw [if_neg (by omega), if_neg (by omega), if_neg (by omega), if_neg (by omega), if_pos (by omega)]
+    have hnot : ¬ ((!d.firstField) = true ∧ d.dyn.size > 0) := by
+      rcases hok with h | h
+      · simp [h]
+      · omega
+    rw [if_neg hnot]
+    simp only [Parser.bind, hrv, show ¬ v > d.dyn.allowedMaxSize by omega, ↓reduceIte, Parser.pure]
+  unfold parseRepr
+  rw [hpa]
+  simp [applyAction]
+
+theorem parseRepr_sizeUpdate_reject (d : DecCore) (v : Nat) (rest : Bytes)
+    (hff : d.firstField = false) (hsz : d.dyn.size > 0) :
+    parseRepr d (appendTableSize v ++ rest) = .err .updateNotAtStart d := by
+  have hpa : parseAction d (appendTableSize v ++ rest) = .error .updateNotAtStart := by
+    unfold appendTableSize
+    obtain ⟨hd, tl, hcons, hlo, hhi⟩ := appendVarInt_cons 5 32 v
+    rw [hcons]
+    simp only [List.cons_append]
+    simp only [Nat.reducePow, Nat.reduceSub, Nat.reduceAdd] at hhi
+    simp only [parseAction]
+    rw [if_neg (by omega), if_neg (by omega), if_neg (by omega), if_neg (by omega), if_pos (by omega)]
+    rw [if_pos (by simp [hff, hsz])]
+  unfold parseRepr
+  rw [hpa]
 
 end NetVerif.Proofs.Lemmas.HpackEnc
